@@ -68,7 +68,7 @@ func c08Spaces(tier string) []*explore.Space {
 	var a0 []gen.Expr
 	lexLen := 4
 	if tier == "thorough" {
-		lexLen = 6
+		lexLen = 5
 	}
 	for _, l := range numberLexemes("0123579", lexLen) {
 		a0 = append(a0, l, gen.F("string", l), gen.B("+", l, lit("1", 1)), gen.B("=", l, lit(strconv.FormatFloat(l.(*gen.Num).V, 'f', -1, 64), l.(*gen.Num).V)))
@@ -194,9 +194,9 @@ func c08Spaces(tier string) []*explore.Space {
 func init() {
 	explore.Register(&explore.Property{
 		ID: "C08", Level: "exploration",
-		Rule: "A0: EVERY Number token (Digits, Digits., Digits.Digits, .Digits) over digits {0,1,2,3,5,7,9} up to 4 (thorough: 6) characters: value, string(), next to an operator, equal to its canonical spelling; all arithmetic expression trees with <= 2 (thorough: 3) binary operators over number literals, count/sum/number/string-length of flat paths, number('v') for the XPath number lexeme and its near misses, unary minus chains, floor/ceiling, and string() of numbers, evaluated on every document of a value universe from every context node and compared bit-for-bit (up to NaN payload) with the reference; mod outside non-negative integers, sum() over non-numeric nodes and string() of non-finite/large numbers are outside the property and skipped (counted); distinct = distinct expressions",
+		Rule: "A0: EVERY Number token (Digits, Digits., Digits.Digits, .Digits) over digits {0,1,2,3,5,7,9} up to 4 (thorough: 5) characters: value, string(), next to an operator, equal to its canonical spelling; all arithmetic expression trees with <= 2 (thorough: 3) binary operators over number literals, count/sum/number/string-length of flat paths, number('v') for the XPath number lexeme and its near misses, unary minus chains, floor/ceiling, and string() of numbers, evaluated on every document of a value universe from every context node and compared bit-for-bit (up to NaN payload) with the reference; mod outside non-negative integers, sum() over non-numeric nodes and string() of non-finite/large numbers are outside the property and skipped (counted); distinct = distinct expressions",
 		Assumptions:    []string{"hand-written reference evaluator (XPath number lexer/printer)", "lawful NodeNavigator", "bounded expression depth and value alphabet"},
-		Budget:         budget(90*time.Second, 12*time.Minute),
+		Budget:         budget(90*time.Second, 20*time.Minute),
 		MinRefOutcomes: 2,
 		Spaces:         c08Spaces,
 	})
